@@ -25,3 +25,19 @@ def classify(pid, case, result):
         if key:
             return key
     return None
+
+
+@classifier("C06")
+def c06_kb_worstcase(case, result):
+    """Stated accuracy exceeded, in >= 2 transform dimensions, by at most the separable
+    worst-case bound 1 - prod_d (1 - e1) of the default Kaiser-Bessel kernels."""
+    from vf.workloads.c06 import sep_bound
+    if result.get("mech") != "threshold":
+        return None
+    w = result.get("witness") or {}
+    nd, ov, width, err = w.get("nd"), w.get("oversamp"), w.get("width"), w.get("err")
+    if nd is None or err is None or width != 4 or ov not in (1.25, 2, 2.0):
+        return None
+    if nd >= 2 and err <= sep_bound(ov, nd):
+        return "C06/kb-kernel-worstcase-multidim"
+    return None
